@@ -342,7 +342,7 @@ Proof.
 Qed.
 
 (** ** insertion before position k *)
-Definition insert_at {A} (k : nat) (a : A) (l : list A) : list A := take k l ++ a :: drop k l.
+(* [insert_at k a l := take k l ++ a :: drop k l] is defined in Forest.v *)
 
 Lemma lookup_insert_at {A} (l : list A) k a j : k <= length l ->
   insert_at k a l !! j = if decide (j < k) then l !! j else if decide (j = k) then Some a else l !! pred j.
